@@ -13,6 +13,9 @@ import vlib, pp, ppcheck
 def btoks(ts):
     out = []
     for t in ts:
+        if t["k"] == "def":
+            out.append({"k": "def", "n": t["n"], "a": btoks(t["a"]), "g": False, "s": t.get("s", "")})
+            continue
         if t["k"] == "use":
             a = [] if not t["a"] else [[btoks(x) for x in t["a"][0]]]
             out.append({"k": "use", "n": t["n"], "a": a, "g": bool(t.get("g"))})
@@ -147,6 +150,10 @@ def rand_program(rng):
                 body.append(rand_use_bt(rng, rng.choice(macros), 1, macros)); prev_plain = False
             elif r < 0.88:
                 body.append(pp.bt("cont")); prev_plain = False
+            elif r < 0.885 and not (body and body[-1]["k"] in ("str", "bqs")):
+                # an object-like `define inside a body: it ends its line, so a continuation follows
+                body.append({"k": "def", "n": "M%d" % rng.randrange(4), "a": [pp.bt("lit", "in%d" % rng.randint(0, 9))], "g": False, "s": ""})
+                body.append(pp.bt("cont")); body.append(pp.bt("lit", rng.choice(WORDS))); prev_plain = True
             elif r < 0.9 and not (body and body[-1]["k"] in ("str", "bqs")):
                 # a directive inside a body is executed when the expansion is rescanned
                 body.append(pp.bt("undef", "M%d" % rng.randrange(4)) if rng.random() < 0.8 else pp.bt("undefall")); prev_plain = False
